@@ -1893,6 +1893,9 @@ class ClientKeyShareExtension(TLSExtension):
 
         :rtype: bytearray
         """
+        if self.client_shares is None:
+            return bytearray(0)
+
         shares = Writer()
         for share in self.client_shares:
             share.write(shares)
